@@ -47,6 +47,9 @@ type gbCase struct {
 	// CloseDuringSend: an Accept's message is held inside the broker stream's send goroutine
 	// (hook grpc.stream.send) while the pair is shut down ("h2p": the plugin's stream, "p2h": the host's)
 	CloseDuringSend string `json:"close_during_send,omitempty"`
+	// StopRace: the owner of an in-process server calls GRPCServer.Stop at the moment the
+	// controller's Shutdown handler (hook grpc.shutdown) is about to do the same
+	StopRace bool `json:"stop_race,omitempty"`
 }
 
 type gbEstObs struct {
@@ -77,6 +80,8 @@ func runGBCase(c gbCase, bin, tmp string, t *testing.T) map[string]interface{} {
 	var cleanup func()
 	rec := sched.NewRecorder()
 	var pluginBroker vp.BrokerAPI
+	var inprocClient *plugin.GRPCClient
+	var inprocServer *plugin.GRPCServer
 	if c.Pair == "inproc" {
 		vpl := &vp.VPlugin{Name: "v", Tag: "1", OnBroker: func(b vp.BrokerAPI) { pluginBroker = b }}
 		ps := map[string]plugin.Plugin{"v": vpl}
@@ -101,6 +106,7 @@ func runGBCase(c gbCase, bin, tmp string, t *testing.T) map[string]interface{} {
 		stub = raw.(*vp.Stub)
 		cp = client
 		cleanup = func() { client.Close(); server.Stop() }
+		inprocClient, inprocServer = client, server
 		if gb, ok := stub.Broker.(vp.GRPCAPI); ok {
 			rec.NameObj(gb.B, "H")
 		}
@@ -145,6 +151,31 @@ func runGBCase(c gbCase, bin, tmp string, t *testing.T) map[string]interface{} {
 		defer plugin.VerifSetHook(nil)
 	}
 
+	if c.StopRace && c.Pair == "inproc" {
+		atShutdown := make(chan struct{})
+		var once sync.Once
+		plugin.VerifSetHook(func(ev string, obj interface{}, a, b int64) {
+			if ev == "grpc.shutdown" {
+				once.Do(func() { close(atShutdown) })
+			}
+		})
+		stopped := make(chan struct{})
+		go func() {
+			defer close(stopped)
+			select {
+			case <-atShutdown:
+			case <-time.After(3 * time.Second):
+			}
+			inprocServer.Stop()
+		}()
+		inprocClient.Close()
+		<-stopped
+		cleanup = func() {}
+		out["ests"] = []gbEstObs{}
+		out["stop_race"] = true
+		out["listener_before_ack"] = true
+		return out
+	}
 	if c.CloseDuringSend != "" && c.Pair == "inproc" {
 		hold = &gbHold{Gate: "grpc.stream.send", Ms: 500}
 		e := gbEst{ID: 4242, Dir: c.CloseDuringSend}
